@@ -63,7 +63,26 @@ NEEDS = {
     "from-variable-early-exit": "two modifications in one round (capacity change then resume) or a wake-up from var_free",
     "no-recursion-through-fatpipe": "closure arriving on a FATPIPE constraint shared by variables that use other constraints",
     "waitany-count-mismatch": "model checker run with a wait_any set mixing communications and another activity kind",
-    "sem-capacity-clamped": "semaphore with no token left and at least one queued actor when a lock/unlock is reported",
+    "link-failure-skips-disabled-variables": "link turned off while one comm on it transfers data and another is still in its latency phase (or suspended)",
+    "ptask-failure-checks-first-host-only": "multi-host parallel execution an actor waits on, failing host not the first of the list",
+    "suspended-yield-skips-recheck": "actor suspended by another actor in the very round one of its simcalls is answered, then killed or re-suspended",
+    "restart-shares-on-exit-list": "auto-restart actor rebooted twice, an on_exit callback registered on the second incarnation",
+    "expand-activates-only-enabled": "non-selective system, variable created with penalty 0 expanded on an idle constraint, enabled later",
+    "maxmin-light-tab-stale-backpointer": "the last live constraint saturates first and is touched again in the same solve (weight-0 element or ratio below precision)",
+    "fatpipe-usage-wrong-penalty": "FATPIPE constraint shared by two variables with different penalties, one fixed in an earlier round",
+    "bmf-check-any-instead-of-all": "bmf solver stopped by bmf/max-iterations on an intermediate allocation that respects capacities",
+    "maxmin-absolute-precision-selection": "constraint with a capacity in (0, 1e-5]",
+    "loop-delay-index-drift": "looping profile with slack after its last point, simulated beyond the second period",
+    "ti-solve-wrap-test-full-amount": "TI cpu model, periodic non-uniform speed profile, exec of at least one full period of work",
+    "watts-use-current-pstate-speed": "pstate change while an exec runs on the host, no other energy update at that date",
+    "exec-start-update-skipped-when-busy": "multi-core host, a second exec starts while one is running, no coincident update on the host",
+    "bypass-search-bounded-by-min-depth": "3-level platform, bypassZoneRoute in the common ancestor, end points at different depths below it",
+    "floyd-intermediate-zone-leg-reversed": "Floyd zone of sub-zones, multi-hop zone path through a zone with two distinct gateways and an asymmetric inner route",
+    "dijkstra-cache-early-exit": "DijkstraCache zone, two queries from one source: a near destination first, then a farther one",
+    "floyd-skips-direct-routes": "Floyd zone with a declared one-hop route of 3+ links and a shorter chain of routes",
+    "torus-odd-dimension-wrap-tie": "torus dimension of odd size, source above d/2 and target exactly (src + d/2) % d",
+    "star-dedup-adjacent-only": "star zone where a link is repeated non-adjacently (limiter link on a self route, two shared centre links)",
+    "sem-capacity-clamped":"semaphore with no token left and at least one queued actor when a lock/unlock is reported",
 }
 STATION = {  # name -> how the pinned tests were run with the change
     "unlock-depth-reversed": "pass (alone)", "trylock-depth-dropped": "pass (alone)", "int-rejection-off-by-one": "pass (alone)",
@@ -96,6 +115,18 @@ G.update({
            "103/104; the 1 failure (tesh-self-background) is load flakiness: " + FLAKY),
     "G10": (["mc-timeout-loses-cancel"], "104/104"),
 })
+G11 = ["link-failure-skips-disabled-variables", "suspended-yield-skips-recheck", "expand-activates-only-enabled",
+       "fatpipe-usage-wrong-penalty", "loop-delay-index-drift", "watts-use-current-pstate-speed",
+       "bypass-search-bounded-by-min-depth", "dijkstra-cache-early-exit", "torus-odd-dimension-wrap-tie"]
+G12 = ["ptask-failure-checks-first-host-only", "restart-shares-on-exit-list", "maxmin-light-tab-stale-backpointer",
+       "bmf-check-any-instead-of-all", "ti-solve-wrap-test-full-amount", "exec-start-update-skipped-when-busy",
+       "floyd-intermediate-zone-leg-reversed", "floyd-skips-direct-routes", "star-dedup-adjacent-only"]
+for gname, names in (("G11", G11), ("G12", G12), ("G13", [])):
+    lp = "/tmp/station_seeds_%s.log" % gname
+    if names and os.path.exists(lp):  # result of the group's station run, when it is still on disk
+        t = open(lp).read()
+        if "100% tests passed" in t:
+            G[gname] = (names, "104/104")
 for g, (names, res) in G.items():
     for n in names:
         if len(names) == 1:
